@@ -4396,6 +4396,12 @@ CS104_Slave_start(CS104_Slave self)
             initializeConnectionSpecificQueues(self);
 #endif
 
+        /* the listening thread of an earlier start that failed has ended, but nobody has released it (no stop in between) */
+        if (self->listeningThread) {
+            Thread_destroy(self->listeningThread);
+            self->listeningThread = NULL;
+        }
+
         self->listeningThread = Thread_create(serverThread, (void*) self, false);
 
         Thread_start(self->listeningThread);
